@@ -70,6 +70,8 @@ def rule_tie_and_onset(ctx):
 
 
 def run(ctx):
+    from ..rules import extra as _X4
+    _X4.rule_multiple_divisions_refused(ctx)
     from ..rules import extra as _X3
     _n = _X3.rule_beat_type_source(ctx, ['partitura.musicanalysis.note_array_to_score', 'partitura.utils.music'], 'C05')
     ctx.floor('BEAT-TYPE', 'conversions', _n, 2)
